@@ -1111,8 +1111,8 @@ def run_corpus(check):
 
 
 def match_known(check, v, known):
-    """Signature predicates over the minimised failing trace; none are listed at present."""
-    return None
+    k = common.match_known(check, v['class'], {'trace': [list(o) for o in v['trace']], 'detail': v['detail']}, known)
+    return k[0] if k else None
 
 
 def replay(path):
